@@ -27,11 +27,25 @@ func copyDir(src, dst string) error {
 	if err != nil {
 		return err
 	}
+	// names that are hard links of one file in the source stay hard links of one file in the copy (the leftover of an
+	// interrupted snapshot is a second name of the head: code that recognises it by inode must still do so)
+	first := map[uint64]string{}
 	for _, e := range ents {
 		if e.IsDir() {
 			continue
 		}
 		sp, dp := filepath.Join(src, e.Name()), filepath.Join(dst, e.Name())
+		if fi, err := os.Stat(sp); err == nil {
+			if st, ok := fi.Sys().(*syscall.Stat_t); ok && st.Nlink > 1 {
+				if prev, ok := first[st.Ino]; ok {
+					if err := os.Link(prev, dp); err != nil {
+						return err
+					}
+					continue
+				}
+				first[st.Ino] = dp
+			}
+		}
 		if !strings.HasSuffix(e.Name(), ".img") {
 			b, err := os.ReadFile(sp)
 			if err != nil {
